@@ -27,7 +27,7 @@ func VerifC09_CloseReturns() {
 	chid := datatransfer.ChannelID{Initiator: p, Responder: f.self, ID: tid}
 	rid := verifRid("rid")
 	req := verifArbitraryRequest("req")
-	req.TransferId = uint64(tid)
+	zz.SetInt(&req.TransferId, uint64(tid))
 	ctx := context.Background()
 
 	// request state
@@ -109,7 +109,7 @@ func verifReleasedAfterClose() {
 	r0, r1 := verifRid("r0"), verifRid("r1")
 	zz.Assume(r0 != r1)
 	req := verifArbitraryRequest("req")
-	req.TransferId = uint64(tid)
+	zz.SetInt(&req.TransferId, uint64(tid))
 	ctx := context.Background()
 	withStore := zz.Bool("withStore")
 	if withStore {
@@ -217,11 +217,11 @@ func VerifC10_SkipExtension() {
 	var chid datatransfer.ChannelID
 	if zz.Bool("pull") {
 		r := verifArbitraryRequest("req") // we pull: we initiated
-		r.TransferId = uint64(tid)
+		zz.SetInt(&r.TransferId, uint64(tid))
 		msg, chid = r, datatransfer.ChannelID{Initiator: o.self, Responder: sender, ID: tid}
 	} else {
 		r := verifArbitraryResponse("resp") // we accept a push: the sender initiated
-		r.TransferId = uint64(tid)
+		zz.SetInt(&r.TransferId, uint64(tid))
 		msg, chid = r, datatransfer.ChannelID{Initiator: sender, Responder: o.self, ID: tid}
 	}
 	var state datatransfer.ChannelState
@@ -277,7 +277,7 @@ func VerifC10_CancelBeforeReopen() {
 	sender := peer.ID(zz.String("sender"))
 	tid := datatransfer.TransferID(zz.Uint64("tid"))
 	req := verifArbitraryRequest("req")
-	req.TransferId = uint64(tid)
+	zz.SetInt(&req.TransferId, uint64(tid))
 	chid := datatransfer.ChannelID{Initiator: o.self, Responder: sender, ID: tid}
 	root, stor := verifLink("root"), zz.Node("selector")
 	ctx := context.Background()
@@ -355,7 +355,7 @@ func VerifC10_NoSecondRequestWhileOldOneMayLive() {
 	sender := peer.ID(zz.String("sender"))
 	tid := datatransfer.TransferID(zz.Uint64("tid"))
 	req := verifArbitraryRequest("req")
-	req.TransferId = uint64(tid)
+	zz.SetInt(&req.TransferId, uint64(tid))
 	chid := datatransfer.ChannelID{Initiator: o.self, Responder: sender, ID: tid}
 	root, stor := verifLink("root"), zz.Node("selector")
 	ctx := context.Background()
